@@ -216,12 +216,21 @@ def run(ctx):
                 mv = [Fraction(x) for x in m.group(2).split(",")]
                 if ((lv - mv[0]) / fr).denominator == 1:
                     tags.append("value_in_class_not_least_magnitude")
+        first_not_point = bool(sta and re.search(r"r0=[QL]", sta))
+        if name == "rel_con" and args and args[0] == "0":
+            site = QUERY_SITE["rel_cg"]      # an equality is handed to relation_with(Congruence)
+        if (name == "rel_cg" or (name == "rel_con" and args and args[0] == "0")) and first_not_point:
+            tags.append("first_generator_not_a_point")
         if name == "is_discrete":
             if sta and re.search(r"zl=[1-9]", sta):
                 tags.append("zero_line_in_gen_sys")
+            if first_not_point:
+                tags.append("first_generator_not_a_point")
         if name == "is_bounded":
             if sta and re.search(r"z[lq]=[1-9]", sta):
                 tags.append("zero_generator_in_gen_sys")
+            if first_not_point:
+                tags.append("first_generator_not_a_point")
         if name in ("rel_gen", "is_universe"):
             if state == "EMPTY" and stb and "-EM" in stb:
                 tags.append("receiver_empty_not_yet_detected")
@@ -369,6 +378,8 @@ def run(ctx):
         if site == "difference_assign":
             if div_ne_1(stb, state):
                 tags.append("point_divisor_ne_1")
+            if stb and re.search(r"r0=[QL]", stb):
+                tags.append("first_generator_not_a_point")
         return site, tags
 
     def classify_desc(hist, ln, name, detail, s):
@@ -584,7 +595,7 @@ def run(ctx):
             if not tt:
                 continue
             if tt[0] == "st":
-                last_st[tt[1]] = " ".join(x for x in tt[2:] if not x.startswith("div=") and not x.startswith("zl=") and not x.startswith("zq="))
+                last_st[tt[1]] = " ".join(x for x in tt[2:] if not x.startswith("div=") and not x.startswith("zl=") and not x.startswith("zq=") and not x.startswith("r0="))
             elif tt[0] == "op":
                 ops_hist[api_of(t)] += 1
                 if tt[1] in last_st:
